@@ -90,9 +90,26 @@ KF_Table(c) ==
 \* not a finding: C18's generator-side deletion must be the reference deletion (tool sanity)
 KF_C18(c) == IF C18Sane(c) THEN "" ELSE "generator-mismatch"
 
+\* C03 "zero-width-only-cell": a table column whose every cell has display width 0 is not laid out at all
+\* (RenderTableRow::into_cells skips cells without width), so a cell whose whole text is a lone combining
+\* mark, a zero-width space or a zero-width joiner is dropped with its text.  Class: the document has a
+\* table, the only thing wrong is that characters without width are missing (with them left out of both
+\* sides the property holds), and the output is exactly what the recorded algorithm predicts.
+ZeroWidthCodes == {769, 8203, 8205}
+DropZW(s) == SelectSeq(s, LAMBDA k : k \notin ZeroWidthCodes)
+KF_C03(c) ==
+  IF \A i \in 1..Len(c.runs) :
+       LET run == c.runs[i] IN
+       IsOk(run) => \/ P_C03_run(c, run)
+                    \/ /\ HasTable(Dom1(c, run))
+                       /\ P_C03_gen(c, run, DropZW)
+                       /\ ModelAgrees(c, run)
+  THEN "zero-width-only-cell" ELSE ""
+
 KFClass(prop, c) ==
   CASE prop = "C12" -> KF_C12(c)
     [] prop = "C18" -> KF_C18(c)
+    [] prop = "C03" -> KF_C03(c)
     [] prop \in {"C05", "C06"} -> KF_Table(c)
     [] prop = "C08" -> KF_C08(c)
     [] prop = "C15" -> KF_C15(c)
